@@ -436,9 +436,6 @@ func runDial(w *world) {
 			}
 		}
 
-		link := &protocol.Link{Alpn: protocol.Link_HTTP, Hostname: host, Remote: "192.0.2.7:4242"}
-		ctx, cancel := context.WithTimeout(context.Background(), 10*time.Second)
-		conn, err := w.local.DialClient(ctx, link)
 		type obs struct {
 			Kind     string   `json:"kind"`
 			Err      string   `json:"err"`
@@ -448,46 +445,59 @@ func runDial(w *world) {
 			Attempts []int    `json:"attempts"`
 			Strays   []string `json:"strays"`
 			Host     string   `json:"host"`
+			Second   any      `json:"second,omitempty"` // the same connection request once more (route cache warm)
 		}
-		ob := obs{Host: host}
-		if err != nil {
-			ob.Kind = classify(err)
-			ob.Err = err.Error()
+		dialOnce := func() obs {
+			link := &protocol.Link{Alpn: protocol.Link_HTTP, Hostname: host, Remote: "192.0.2.7:4242"}
+			ctx, cancel := context.WithTimeout(context.Background(), 10*time.Second)
+			conn, err := w.local.DialClient(ctx, link)
+			ob := obs{Host: host}
+			if err != nil {
+				ob.Kind = classify(err)
+				ob.Err = err.Error()
+				if conn != nil {
+					ob.Kind += "+conn"
+				}
+			} else if conn == nil {
+				ob.Kind = "nil"
+			} else {
+				ob.Kind = "conn"
+				// a healthy connection delivers the probe at once; after a few dead ones the wait is cut short so
+				// that a broken tree cannot stall the run
+				wait := 3 * time.Second
+				if deadConns >= 5 {
+					wait = 150 * time.Millisecond
+				}
+				conn.SetWriteDeadline(time.Now().Add(wait))
+				if _, werr := conn.Write(nonce); werr != nil {
+					ob.Err = "probe write: " + werr.Error()
+				}
+				select {
+				case who := <-rec.nonce:
+					ob.Client = who
+				case <-time.After(wait):
+					ob.Client = 0
+					deadConns++
+				}
+			}
 			if conn != nil {
-				ob.Kind += "+conn"
+				conn.Close()
 			}
-		} else if conn == nil {
-			ob.Kind = "nil"
-		} else {
-			ob.Kind = "conn"
-			// a healthy connection delivers the probe at once; after a few dead ones the wait is cut short so
-			// that a broken tree cannot stall the run
-			wait := 3 * time.Second
-			if deadConns >= 5 {
-				wait = 150 * time.Millisecond
-			}
-			conn.SetWriteDeadline(time.Now().Add(wait))
-			if _, werr := conn.Write(nonce); werr != nil {
-				ob.Err = "probe write: " + werr.Error()
-			}
-			select {
-			case who := <-rec.nonce:
-				ob.Client = who
-			case <-time.After(wait):
-				ob.Client = 0
-				deadConns++
-			}
+			cancel()
+			rec.mu.Lock()
+			ob.LinkTo = append([]int{}, rec.linkTo...)
+			ob.LinkHost = append([]string{}, rec.linkHost...)
+			ob.Attempts = append([]int{}, rec.attempts...)
+			ob.Strays = append([]string{}, rec.strays...)
+			rec.mu.Unlock()
+			return ob
 		}
-		if conn != nil {
-			conn.Close()
-		}
-		cancel()
+		ob := dialOnce()
 		rec.mu.Lock()
-		ob.LinkTo = append([]int{}, rec.linkTo...)
-		ob.LinkHost = append([]string{}, rec.linkHost...)
-		ob.Attempts = append([]int{}, rec.attempts...)
-		ob.Strays = append([]string{}, rec.strays...)
+		rec.linkTo, rec.linkHost, rec.attempts, rec.strays = nil, nil, nil, nil
 		rec.mu.Unlock()
+		second := dialOnce()
+		ob.Second = second
 		verifkit.Answer(i, ob)
 	})
 }
